@@ -56,8 +56,8 @@ TRUSTED = ['Lean 4.33 kernel; axioms of every C10_* theorem ⊆ {propext, Classi
            'extract_segment / sort_legcharges (C10/ExtOps.lean) are modelled on operator-valued matrices; theorems in '
            'C10/PropsExt.lean; given there: Site.valid_opname and the charge of every operator (C12), trivial shift symmetry of '
            'the ChargeInfo; the W tensors of the real MPO are compared with the model grids evaluated with the site operators '
-           'at 1e-11 (npc.grid_outer / tensordot / combine_legs are not modelled); the infinite-MPO window theorem for build_MPO '
-           'is checked by execution (denote_graph_ok), proved for finite chains',
+           'at 1e-11 (npc.grid_outer / tensordot / combine_legs are not modelled); the window theorem for build_MPO of an infinite graph '
+           'assumes equal ordered states on the first and last bond (compared exactly on every case)',
            'infinite nearest-neighbour models: bond operators / MPO from bonds / bonds from MPO are compared on a window up to '
            'on-site terms on the two boundary sites, and through the energy per unit cell of a random iMPS (reduced density '
            'matrices of the state by MPS.get_rho_segment)']
